@@ -65,9 +65,12 @@ DOCS = [
     # 11 a plain stream over a longer list
     """query ($d0: Boolean = true, $d1: Boolean = true, $d2: Boolean = true, $d3: Boolean = true) {
       hero { friends @stream(initialCount: 0, label: "S", if: $d0) { name } } }""",
+    # 12 a fragment deferred inside an object that a non-null sibling field nulls
+    """query ($d0: Boolean = true, $d1: Boolean = true, $d2: Boolean = true, $d3: Boolean = true) {
+      hero { nn name ... @defer(label: "A", if: $d0) { slow slow2 } } n }""",
 ]
 PARSED = [parse(d) for d in DOCS]
-N_DIRECTIVES = [4, 3, 3, 3, 3, 3, 2, 2, 3, 1, 1, 1]
+N_DIRECTIVES = [4, 3, 3, 3, 3, 3, 2, 2, 3, 1, 1, 1, 1]
 
 ASYNCABLE = ["Hero.slow", "Hero.slow2", "Hero.name", "Query.heroes", "Hero.best", "Hero.nn", "Query.n", "Hero.bad"]
 
